@@ -1,4 +1,6 @@
 """C16 -- Matrix multiplication is correct for every kernel and shape (DESIGN.md section 2, C16)."""
+import os
+
 import vf
 
 META = {
@@ -54,7 +56,7 @@ def main(ctx):
     ctx.audit(GROUP)
     failed = ctx.prove(GROUP, "Props_C16", THEOREMS)
     bindir = ctx.harness(GROUP, profile="release", bins=["c16"])
-    cases = ctx.gen_exec(bindir, "c16", ctx.n(40, 300), inputs=ctx.replay_inputs())
+    cases = ctx.gen_exec(bindir, "c16", int(os.environ.get('VERIF_N', ctx.n(40, 300))), inputs=ctx.replay_inputs())
     gemm_cases = [c for c in cases if not c["term"].startswith("CP ")]
     pack_cases = [c for c in cases if c["term"].startswith("CP ")]
     # The property is functional: the implementation's output must equal the specification.  Alarms
@@ -64,6 +66,10 @@ def main(ctx):
     ctx.correspond("gemm-output-vs-spec", GROUP, REQ, allc, classify=classify, show="show",
                    agree="always", prop_ok="prop_ok", shard=shard,
                    fn_name="Gemm.GemmModel.gemm_spec (Z instance) vs GemmExecutor output")
+    if os.environ.get('VERIF_FAST') == '1':
+        if failed and not ctx.violations:
+            ctx.proof_broken(failed, 'all correspondence cases of this run')
+        return
     # Informational: (a) does the blocked model with the reported block parameters reproduce the
     # output (params_okb still holds for the code's block-size functions)? (b) packed-buffer layouts.
     dis, _, err = ctx.coq_eval_cases(GROUP, REQ, [c["term"] for c in gemm_cases], "agree", "always", shard, tag="det")
